@@ -1,7 +1,7 @@
 """C12 (part B) — call binding: mypy rejects a call for arity / keyword reasons iff CPython raises TypeError.
 
-1. Lean: Props/C12Bind (arity_iff_core over all signatures and all positional+keyword calls, unbounded;
-   F9 witnesses; partial theorem).
+1. Lean: Props/C12Bind (arity_iff_core / arity_iff_star / arity_iff_partial over all signatures and all call
+   shapes with statically known sizes and keys, unbounded; F9 witnesses inside the excluded shapes).
 2. Tie, both sides, on the same generated (signature, call) pairs:
    a. real mypy — one generated module per batch, checked in-process; per call line the
       `formal_to_actual` mapping handed to `check_argument_count` and the arity diagnostics —
@@ -23,7 +23,9 @@ from typing import Any
 
 from harness.vlib.core import Ctx, ToolFailure
 
-MODEL_FILES = ["MypyVerif/Model/ArgMap.lean", "MypyVerif/Model/PyBind.lean", "MypyVerif/Proofs/Bind.lean"]
+MODEL_FILES = ["MypyVerif/Model/ArgMap.lean", "MypyVerif/Model/PyBind.lean", "MypyVerif/Proofs/Bind.lean",
+               "MypyVerif/Proofs/BindStar.lean", "MypyVerif/Proofs/BindTD.lean", "MypyVerif/Proofs/BindDup.lean",
+               "MypyVerif/Gen/BindCfg.lean"]
 DRIVER = "Driver/C12Bind.lean"
 
 # ------------------------------------------------------------------------------------ names
@@ -204,6 +206,8 @@ class MypyRunner:
         self.ctx = ctx
         self.cache = os.path.join(ctx.tmp, "bind-cache")
         self.nbuilds = 0
+        self.crash_builds = 0
+        self.max_crash_builds = ctx.pick(300, 2500)    # bisection budget (a tree that crashes everywhere)
 
     def build(self, text: str):
         """(errors by line, formal_to_actual by line) or raises"""
@@ -270,8 +274,12 @@ class MypyRunner:
         except BaseException as e:  # noqa: BLE001 - a crash of mypy on an accepted program
             if isinstance(e, KeyboardInterrupt):
                 raise
+            self.crash_builds += 1
             if len(cases) == 1:
                 return [{"errs": [], "f2a": None, "crash": f"{type(e).__name__}: {str(e)[:120]}"}]
+            if self.crash_builds > self.max_crash_builds:
+                # enough crashes have been located and reported: the rest of this batch is not evaluated
+                return [{"errs": [], "f2a": None, "crash": None, "skipped": True} for _ in cases]
             mid = len(cases) // 2
             return self.run(cases[:mid]) + self.run(cases[mid:])
         return [{"errs": errs.get(ln, []), "f2a": f2a.get(ln), "crash": None} for ln in at]
@@ -328,8 +336,11 @@ def parse_model(line: str) -> dict:
         raise ToolFailure(f"bind driver: bad output {line!r}")
 
 
-def shape_of(m: dict) -> str:
-    if m["f8"] == "1":
+def shape_of(m: dict, crash: bool = False) -> str:
+    """the known shape the call falls into (decidable predicates of Model/PyBind.lean).  Two **TypedDict
+    actuals sharing a key are the crash shape (F8); when mypy does not crash on them, a wrong verdict is
+    judged like any other call (a shared key routed to **kwargs is the duplicate-key shape F9a)."""
+    if crash and m["f8"] == "1":
         return "two-typeddicts-share-key"
     if m["f9a"] == "1":
         return "duplicate-key-routed-to-star-formal"
@@ -362,10 +373,13 @@ def compare(ctx: Ctx, cases, models, reals, pys, stats: dict) -> None:
             if py != m["py"]:
                 raise ToolFailure(f"CPython-binding model disagrees with CPython on {src}: model {m['py']}, CPython {py}")
             ctx.dist("bind_cpython", py)
+        if real.get("skipped"):
+            stats["not_evaluated_after_crash_budget"] = stats.get("not_evaluated_after_crash_budget", 0) + 1
+            continue
         # ---- mypy crashed on this call
         if real["crash"]:
             stats["crash"] += 1
-            report_once(ctx, {"sub": "bind", "class": "mypy-crash", "shape": shape_of(m),
+            report_once(ctx, {"sub": "bind", "class": "mypy-crash", "shape": shape_of(m, crash=True),
                               "exception": real["crash"].split(":")[0]},
                         f"mypy crashes ({real['crash']}) on {src}", dict(detail, crash=real["crash"]))
             continue
@@ -435,8 +449,14 @@ def run(ctx: Ctx) -> None:
         "with/without default, **kwargs) × call shapes ≤ 4 actuals from {positional, *tuple of length 0–3, keywords, " \
         "**TypedDict with 0–2 keys, *list, **dict}; exhaustive for small bounds, sampled above. Non-trivial: non-empty " \
         "call to a function with parameters; distinct by (signature, call)."
+    from translate import c12bind
+    c12bind.main()        # Gen/BindCfg.lean: one dispatch fact of the mapper under check (F9 iii present or repaired)
     proved = ctx.prove("MypyVerif.Props.C12Bind", MODEL_FILES)
-    ctx.trusted("bind model: map_actuals_to_formals, check_argument_count, check_for_extra_actual_arguments, "
+    if c12bind.NOTE:
+        ctx.broken_ties.append(c12bind.NOTE)
+        proved = False
+    ctx.trusted("translator translate/c12bind.py (one observed fact: where a **TypedDict key naming *args is mapped)",
+                "bind model: map_actuals_to_formals, check_argument_count, check_for_extra_actual_arguments, "
                 "is_duplicate_mapping (ParamSpec branches and unchecked call sites excluded)",
                 "CPython binding model (PyBind) is compared with the running interpreter (real def + call) on every case",
                 "harness observes formal_to_actual by wrapping ExpressionChecker.check_argument_count in-process")
